@@ -28,8 +28,8 @@ def _nontrivial(s):
     """a catalogue scenario is non-trivial if some endpoint is updated at least twice or an update is
     rejected / fails / the endpoint is removed after something was registered"""
     names = [o[0] for o in s.get("ops", [])]
-    return ("Reg" in names or "Burst" in names or "Par" in names or "Chase" in names or "Swap" in names) and \
-        (len(names) >= 2) and any(n in ("Bad", "Fail", "Rm", "Burst", "Par", "Chase", "Swap") or names.count("Reg") >= 2 for n in names)
+    return ("Reg" in names or "Burst" in names or "Par" in names or "Chase" in names or "Swap" in names or "Race" in names) and \
+        (len(names) >= 2) and any(n in ("Bad", "Fail", "Rm", "Burst", "Par", "Chase", "Swap", "Race") or names.count("Reg") >= 2 for n in names)
 
 
 _E3 = '{"e1", "e2", "e3"}'
